@@ -105,6 +105,15 @@ class Bins:
             return ("DEV", self.seg, repr(other))
         raise Undecided("bins arithmetic")
 
+    def abs_compare(self, op, other, reflected):
+        return ("MASK", self.seg, type(op).__name__, repr(other))
+
+    def abs_getitem(self, it, k):
+        if isinstance(k, tuple) and k and k[0] == "MASK":
+            # a selection among the segment's bins by their values: other bins than the ones handed over
+            return Bins(("FILTERED-BY-VALUE", self.seg) + k[2:], self.vals, self.wts)
+        raise Undecided(f"bins[{k!r}]")
+
 
 class Weights:
     def abs_getitem(self, it, k):
@@ -532,6 +541,9 @@ def run(chk):
     chk.clause("D4", "the input segments' own columns are unchanged (decided inside D1: stores go to a copy, new column names only)")
     d5(chk, prog)
     d5b(chk, prog)
+    # the estimators behind --bivar / --mad / --iqr, interpreted on literal vectors against their formulas (C19-D6 rule)
+    from . import C19
+    C19.d6(chk, prog, names=("biweight_location", "biweight_midvariance", "median_absolute_deviation", "interquartile_range"))
     chk.clause("CLI", "the `segmetrics` / `bintest` command lines: each statistic flag lands in its own list, alpha / bootstrap / smoothing / -t reach the statistics functions")
     from .. import cliglue
     cliglue.check_stats(chk, prog)
